@@ -1437,3 +1437,4 @@ case("c16-refactor-overlay-prefiltered-own", "C16", "refactor", [(H + "start_sta
                 # do not let the join stage's own context override it.
                 continue
 """)])
+case("c15-rearm-keeps-delivered-signal", "C15", "mutant", [(H + "jump_to_stage/reset.py", '    for key in ("_signal_name", "_signal_data"):', '    for key in ("_signal_data",):')], "C15.R6")
